@@ -39,6 +39,10 @@ structure St where
 def showAgent (a : Agent) : String :=
   s!"tcp {showTable a.tcp} | udp {showTable a.udp} | icmp {showTable a.icmp}"
 
+def insertN (x : Nat) : List Nat → List Nat
+  | [] => [x]
+  | h :: t => if x ≤ h then x :: h :: t else h :: insertN x t
+
 def kindName : Kind → String
   | .tcp => "tcp" | .udp => "udp" | .icmp => "icmp"
 
@@ -58,7 +62,7 @@ def showExit (h : C17.Handler) : String :=
   "exit=[" ++ " ".intercalate ((h.conns.foldr insertKV' []).map (fun kv => s!"{kv.1}:{kv.2.serial}")) ++ "]"
 
 def nodeOut (s : St) (a : Agent) (ex : C17.Handler) (k : Kind) (l : List Sent) (x : List String) : St × String :=
-  ({ s with a := a, ex := ex }, s!"sent={showSent a k l} x=[{" ".intercalate x}] | {showAgent a} | {showExit ex}")
+  ({ s with a := a, ex := ex }, s!"sent={showSent a k l} x=[{" ".intercalate x}] | {showAgent a} | {showExit ex} uexit=[{" ".intercalate ((a.udpExit.foldr insertN []).map toString)}]")
 
 def agentOut (s : St) (a : Agent) (k : Kind) (l : List Sent) : St × String :=
   nodeOut s a s.ex k l []
@@ -77,6 +81,10 @@ def tOut (s : St) (t : Table) (res : String) : St × String :=
 def step (cleanAll : Bool) (s : St) (line : String) : St × String :=
   match tokens line with
   | "reset" :: _ => ({ t := {}, a := { cleanAll := cleanAll }, ex := {} }, "ok")
+  | ["uxopen", p, i] =>
+    if !s.a.connected p.toNat! then agentOut s s.a .udp [] else
+    let (a, l) := s.a.udpExitOpen p.toNat! i.toNat!
+    agentOut s a .udp l
   | ["xopen", p, i] =>
     if !s.a.connected p.toNat! then agentOut s s.a .tcp [] else
     let (n, l, x) := (Node.mk s.a s.ex).xopen p.toNat! i.toNat!
@@ -127,6 +135,7 @@ def step (cleanAll : Bool) (s : St) (line : String) : St × String :=
     | some .tcp =>
       let (n, l, x) := (Node.mk s.a s.ex).data p.toNat! i.toNat! noKey (hex ++ "/f" ++ fl) (fl == "1")
       nodeOut s n.a n.ex .tcp l x
+    | some .udp => optOut s .udp (s.a.udpData p.toNat! i.toNat! (hex ++ "/f0"))
     | some k => optOut s k (s.a.relayData k p.toNat! i.toNat! (hex ++ "/f0"))   -- UDP/ICMP relays set no flags
     | none => (s, "bad-op")
   | ["close", k, p, i] =>
@@ -134,6 +143,7 @@ def step (cleanAll : Bool) (s : St) (line : String) : St × String :=
     | some .tcp =>
       let (n, l, x) := (Node.mk s.a s.ex).close "close" p.toNat! i.toNat!
       nodeOut s n.a n.ex .tcp l x
+    | some .udp => let (a, l) := s.a.udpClose p.toNat! i.toNat!; agentOut s a .udp l
     | some k => optOut s k (s.a.relayClose k "close" p.toNat! i.toNat!)
     | none => (s, "bad-op")
   | ["rst", p, i] =>
@@ -170,6 +180,8 @@ structure SpecSt where
   xnext : Nat := 0
   peers : List Nat := []
   collided : Bool := false   -- two live tunnels of one table shared a bare stream id at some point
+  relayCollided : Bool := false  -- … two RELAYED tunnels of one relay table (the only thing that can orphan an index)
+  uxlive : List (Nat × Nat) := []  -- exit-side UDP associations (peer, id)
 
 /-- frames sent: (peer, kind.what, stream id, payload/flags token or "") -/
 def parseSent (out : String) : List (Nat × String × Nat × String) :=
@@ -247,10 +259,19 @@ def removeLeg (s : SpecSt) (k : String) (p i : Nat) (allowUp : Bool) : SpecSt :=
 
 /-- close / reset from `(p,i)`: a relayed tunnel is torn down and the close travels on; otherwise the
     exit tunnel of exactly that peer and id is closed; nothing else may be touched. -/
-def specClose (s : SpecSt) (k what : String) (p i : Nat) (sent : List (Nat × String × Nat × String)) (x : List String) : SpecSt × String :=
+def specClose (s : SpecSt) (k what : String) (p i : Nat) (sent : List (Nat × String × Nat × String)) (x : List String)
+    (out : String := "") : SpecSt × String :=
   match expectFwd s k p i true with
   | some e =>
     let s' := removeLeg s k p i true
+    -- C17: the closed tunnel's record must be gone from its relay table
+    let closed := s.live.filter (fun t => !s'.live.contains t)
+    let survives := closed.any (fun t =>
+      (out.splitOn s!"| {k} ").drop 1 |>.any (fun seg =>
+        (((seg.splitOn " | ").headD "").splitOn s!"({t.upPeer},{t.upId},{t.downPeer},{t.downId})").length > 1))
+    if survives then
+      (s', if s.relayCollided then "fail c17-collision-orphan" else "fail c17-entry-survives-close")
+    else
     match checkFwd s k what (some e) sent with
     | some err => (s', "fail " ++ err)
     | none => (s', if x.isEmpty then "ok" else "fail " ++ tag s "relay-frame-reached-exit")
@@ -287,7 +308,7 @@ def specStep (s : SpecSt) (l : String) : SpecSt × String :=
                          live := s.live.filter (fun t => t.upPeer != p && t.downPeer != p) }
       -- C17: nothing that involves the vanished peer may remain in any relay table
       if mentionsPeer out p then
-        (s', if s.collided then "fail c17-collision-orphan" else "fail c17-relay-leak-on-disconnect")
+        (s', if s.relayCollided then "fail c17-collision-orphan" else "fail c17-relay-leak-on-disconnect")
       else (s', "ok")
     | ["open", k, p, i, n] =>
       let (p, i, n) := (p.toNat!, i.toNat!, n.toNat!)
@@ -301,7 +322,10 @@ def specStep (s : SpecSt) (l : String) : SpecSt × String :=
             let t : Tun := ⟨k, p, i, n, j⟩
             -- a re-used (peer,id) replaces the old tunnel of that leg; it is a bare-id collision too
             let live := s.live.filter (fun u => !(legUp k p i u))
-            ({ s with live := t :: live, collided := s.collided || clash k s.live t }, "ok")
+            -- an exit-side UDP association under the same bare id swallows the relayed datagrams (known finding)
+            let ux := k == "udp" && s.uxlive.any (fun u => u.2 == i)
+            ({ s with live := t :: live, collided := s.collided || clash k s.live t || ux,
+                      relayCollided := s.relayCollided || clash k s.live t }, "ok")
           else (s, "fail " ++ tag s "misrouted")
         | _ => (s, "fail " ++ tag s "dropped")
     | "ack" :: k :: p :: i :: rest =>
@@ -309,6 +333,14 @@ def specStep (s : SpecSt) (l : String) : SpecSt × String :=
       match checkFwd s k "ack" (expectFwd s k p i false) sent (rest.headD "010203") with
       | some e => (s, "fail " ++ e)
       | none => (s, "ok")
+    | ["uxopen", p, i] =>
+      let (p, i) := (p.toNat!, i.toNat!)
+      if !s.peers.contains p then (s, "ok") else
+      if sent == [(p, "udp.ack", i, "")] then
+        let clashRelay := s.live.any (fun t => t.kind == "udp" && (t.upId == i || t.downId == i))
+        ({ s with uxlive := (p, i) :: s.uxlive.filter (fun u => u.2 != i),
+                  collided := s.collided || clashRelay || s.uxlive.any (fun u => u.2 == i) }, "ok")
+      else (s, "fail " ++ tag s "exit-open-failed")
     | ["xopen", p, i] =>
       let (p, i) := (p.toNat!, i.toNat!)
       if !s.peers.contains p then (s, "ok") else
@@ -384,14 +416,17 @@ def specStep (s : SpecSt) (l : String) : SpecSt × String :=
       | none => (s', "ok")
     | ["close", k, p, i] =>
       let (p, i) := (p.toNat!, i.toNat!)
-      specClose s k "close" p i sent (parseX out)
+      let s0 := if k == "udp" then { s with uxlive := s.uxlive.filter (fun u => u.2 != i) } else s
+      let r := specClose s0 k "close" p i sent (parseX out) out
+      -- a UDP_CLOSE of the association's owner with no relay leg produces nothing: fine
+      r
     | ["rst", p, i] =>
       let (p, i) := (p.toNat!, i.toNat!)
-      specClose s "tcp" "rst" p i sent (parseX out)
+      specClose s "tcp" "rst" p i sent (parseX out) out
     | ["end"] =>
       -- C17: once no tunnel is live, every relay index must be empty
       if s.live.isEmpty && countEntries out != 0 then
-        (s, if s.collided then "fail c17-collision-orphan" else "fail c17-not-empty")
+        (s, if s.relayCollided then "fail c17-collision-orphan" else "fail c17-not-empty")
       else (s, "ok")
     | _ => (s, "ok")
   | _ => (s, "bad-op")
